@@ -76,14 +76,14 @@ USERS_EXE = ["u1", "u2", "exe"]
 SPECIAL = ["u1", "mod", "wrap", "pre", "zero", "eth"]   # erc20 module account, token contract, precompile, zero address, eth module
 
 
-def consts(kind, alias, pset, steps, plen, conv, tokn, gov, prog, u1=2, u2=1, amt=(1, 2), recv=USERS_EXE, trecv=USERS_EXE):
+def consts(kind, alias, pset, steps, plen, conv, tokn, gov, prog, u1=2, u2=1, amt=(1, 2), recv=USERS_EXE, trecv=USERS_EXE, soft=False, mortal=False):
     return dict(Kind=kind, HasAlias=alias, InitU1=u1, InitU2=u2, Amt=list(amt), RecvSet=list(recv), TRecvSet=list(trecv), ProgLen=plen, ProgSet=pset,
-                MaxConv=conv, MaxTok=tokn, MaxGov=gov, MaxProg=prog), {"StepSet": steps}
+                Soft=soft, Mortal=mortal, MaxConv=conv, MaxTok=tokn, MaxGov=gov, MaxProg=prog), {"StepSet": steps}
 
 
 def cfg(name, tiers, kind, alias, pset, steps, plen, conv, tokn, gov, prog, shards=14, rej_sample=0, explore=2, **kw):
     c, ov = consts(kind, alias, pset, steps, plen, conv, tokn, gov, prog, **kw)
-    h = dict(chain=name, Kind=kind, HasAlias=alias, InitU1=c["InitU1"], InitU2=c["InitU2"])
+    h = dict(chain=name, Kind=kind, HasAlias=alias, InitU1=c["InitU1"], InitU2=c["InitU2"], Soft=c["Soft"], Mortal=c["Mortal"])
     return dict(name=name, tiers=tiers, consts=c, overrides=ov, harness=[h], shards=shards, rej_sample=rej_sample, explore=explore)
 
 
@@ -122,6 +122,23 @@ for k in KINDS:
     KNOWN.append(cfg(k + "-known3", ["thorough"], k, True, "known", "StepsT", 3, 1, 1, 1, 0, shards=12, rej_sample=1, explore=0))
 MAIN.append(cfg("module-noalias", ["quick"], "module", False, "main", "StepsD", 2, 1, 1, 1, 1, shards=8, rej_sample=4))
 
+
+# ---- the externally-owned token as an ORDINARY third-party ERC-20 (harness/erc20/token.go) instead of FIP20: it answers false
+# instead of reverting (Soft) and / or its owner can destroy it (Mortal: operation Kill, state component `dead`, the pair dropped by
+# the next conversion message).  Every operation the specification rejects is tried (no sampling).
+def tok_family(name, tiers, pset, steps, plen, conv, tokn, gov, prog, soft, mortal, shards=12, **kw):
+    c, ov = consts("external", True, pset, steps, plen, conv, tokn, gov, prog, soft=soft, mortal=mortal, **kw)
+    MC.append(dict(name=name, tiers=tiers, consts=c, overrides=ov, timeout=2400))
+    MAIN.append(cfg(name, tiers, "external", True, pset, steps, plen, conv, tokn, gov, prog, shards=shards, rej_sample=0, soft=soft, mortal=mortal, **kw))
+
+
+tok_family("external-tok-dev", ["dev"], "main", "StepsD", 1, 1, 1, 1, 1, True, True, shards=6)
+tok_family("external-tok", ["quick"], "main", "StepsD", 2, 2, 1, 1, 1, True, True)
+tok_family("external-soft", ["thorough"], "main", "StepsD", 2, 2, 1, 2, 1, True, False, shards=16)
+tok_family("external-mortal", ["thorough"], "main", "StepsD", 2, 2, 1, 2, 1, False, True, shards=16)
+tok_family("external-tok-msgs", ["thorough"], "main", "StepsQ", 1, 3, 1, 2, 1, True, True, shards=16)
+tok_family("external-tok-recv", ["thorough"], "none", "StepsD", 1, 2, 1, 1, 0, True, True, shards=8, amt=(1,), recv=SPECIAL, trecv=SPECIAL)
+
 ASSUMPTIONS = [
     "one token pair per world; kinds: fx (WFX wrapper, registered at genesis), module (MsgRegisterCoin of a bridged coin 'tkm' with bridge "
     "denomination eth0x.. in its metadata), external (FIP20 logic behind a proxy deployed and owned by an ordinary account, MsgRegisterERC20 "
@@ -143,6 +160,15 @@ ASSUMPTIONS = [
     "and the book equations read escrow = supply + gift",
     "several pairs: Erc20Reg.tla (two MsgRegisterCoin coins, one MsgRegisterERC20 token, alias sets from a shared pool incl. another pair's base "
     "denomination, MsgUpdateDenomAlias collisions), formulas C08_IndexesAgree / C08_RefusedChangesNothing of that module",
+    "the externally-owned token as an ordinary third-party ERC-20 (families external-tok*, external-soft, external-mortal): a hand-assembled "
+    "EIP-20 contract (harness/erc20/token.go; FIP20's selectors, no events) deployed by an ordinary account with the whole supply, which its "
+    "owner hands out; Soft = transfer/transferFrom answer false and change nothing instead of reverting; Mortal = owner-only kill() "
+    "(SELFDESTRUCT).  An account's direct token call counts as accepted only when the transaction did not revert AND the token answered true; "
+    "kill(), deposit() and withdraw() sent to an address without code (which cannot fail and execute nothing) are reported as refused without "
+    "being sent.  The environment ledger `lost` records the token balances outside the escrow that existed when the owner destroyed the contract",
+    "a destroyed token: the book equation of the externally-owned pair and the alias-list/alias-index agreement for an UNREGISTERED coin are "
+    "required only while the contract exists (the owner destroying it destroys the escrow; RemoveTokenPair leaves the coin's bank metadata, "
+    "alias list included, behind); a conversion message accepted for a destroyed contract must move nothing (it only drops the pair)",
     "known finding %s: the scenario family (an in-EVM write to the executor's token balance followed by bridgeCall of the same token, not "
     "reverted) is replayed in a separate pass; everything else must hold with 0 deviations" % SCENARIO_ID,
 ]
@@ -163,6 +189,8 @@ REG_GEN = [reg_cfg("reg-dev", ["dev"], ["c1", "c2"], ["x"], 2, shards=4),
 REG_MC = [dict(name=c["name"], tiers=c["tiers"], consts=c["consts"]) for c in REG_GEN]
 REG_KW = dict(pid="C08", module="Erc20Reg", mcmodule="Erc20RegMC", pkg="erc20", formulas=REG_FORMULAS, reset_op=REG_RESET, level_note="", design_ref="5/C08")
 
+ALL_OPS = ("Register", "Toggle", "UpdateAlias", "ConvertCoin", "ConvertERC20", "ConvertDenom", "Deposit", "Withdraw", "Transfer", "Approve",
+           "TransferFrom", "RunProgram", "Kill")
 KW = dict(pid="C08", module="Erc20", mcmodule="Erc20MC", pkg="erc20", formulas=FORMULAS, reset_op=RESET, level_note="", design_ref="5/C08")
 
 
@@ -193,6 +221,13 @@ def _run_c08(work, args):
             else:
                 log(line)
         return 0 if f else rc
+    only = os.environ.get("VERIF_C08_ONLY")      # development aid: only the configurations whose name contains this text
+    if only:
+        rc1, ev, viol1, dev1 = graph_property(work, args, mc_cfgs=[c for c in MC if any(o in c["name"] for o in only.split(","))],
+                                              gen_cfgs=[c for c in MAIN if any(o in c["name"] for o in only.split(","))],
+                                              assumptions=ASSUMPTIONS, write=False, never_ok=ALL_OPS, **KW)
+        log("PARTIAL RUN (VERIF_C08_ONLY=%s): not a verdict on C08" % only)
+        return specs.finish(work, "C08", ev, ASSUMPTIONS + ["PARTIAL RUN: only configurations matching %r" % only], viol1, dev1)
     # ---- pass 1: everything outside the known scenario; any violation here is a violation
     rc1, ev, viol1, dev1 = graph_property(work, args, mc_cfgs=MC, gen_cfgs=MAIN, assumptions=ASSUMPTIONS, write=False, **KW)
     if viol1:
@@ -268,7 +303,10 @@ specs.MANIFEST["C08"] = dict(
          "thorough) over {transfer, approve, transferFrom, crossChain, bridgeCall, final REVERT} executed by a token-holding contract in one "
          "transaction. Formulas: escrow = total supply (module-owned / wrapper), escrowed tokens = circulating coin supply over all denominations "
          "(externally-owned), balances sum to total supply, all coins accounted for, value conserved, a conversion moves exactly n from sender "
-         "to receiver, a refused operation changes nothing, the three indexes and the metadata aliases agree. Programs inside the known scenario "
+         "to receiver, a refused operation changes nothing, the three indexes and the metadata aliases agree (no index entry survives its pair). "
+         "The externally-owned token is also taken as an ordinary third-party ERC-20 (hand-assembled): one that answers false instead of "
+         "reverting (Soft) and one its owner can destroy (Mortal: operation Kill, state component dead; the next conversion message drops the "
+         "pair and must move nothing). Programs inside the known scenario "
          "OuterWriteThenNestedConvert are replayed in a separate pass and reported as KNOWN-FINDING when listed.",
     note="bounded: 3 user-side holders, amounts 1-2, <=3 conversions, <=2 token calls, <=2 governance operations, one program per history; "
          "initial coins minted directly; one bridge module (eth); trusted: TLC, the abstraction function (raw store reads + contract queries), "
